@@ -5,6 +5,7 @@ package server
 
 import (
 	"net"
+	"strings"
 	"testing"
 	"testing/synctest"
 	"time"
@@ -104,4 +105,13 @@ func TestVerifResolverSmoke(t *testing.T) {
 			}
 		}
 	})
+}
+
+// vfNormRR renders a record for comparison: owner lower-cased, TTL ignored.
+func vfNormRR(rr dns.RR) string {
+	c := dns.Copy(rr)
+	c.Header().Name = strings.ToLower(c.Header().Name)
+	c.Header().Ttl = 0
+	c.Header().Rdlength = 0
+	return strings.ToLower(c.String())
 }
